@@ -147,7 +147,8 @@ TimerArmed == \A c \in Consumers : LET x == st.cs[c]  y == prev.cs[c] IN
               \* a (re)armed month timer expires at utils.NextMonth(block time)  (NextMonth.tla is its transcription)
               \* (a step of several blocks re-arms at the block in which the old timer fired: between the two ends)
               /\ (NotReset /\ x.subn.on /\ (~y.subn.on \/ x.subn.exp # y.subn.exp)) =>
-                    /\ prev.nm <= x.subn.exp /\ x.subn.exp <= st.nm
+                    \* (NextMonth is not monotone over the clamped days 29-31, so only the 28..31-day window is required)
+                    /\ prev.t + 28 * 86400 <= x.subn.exp /\ x.subn.exp <= st.t + 31 * 86400
                     /\ (IsTx(st) \/ st.ev = "month" \/ st.n = 1) => x.subn.exp = st.nm
 NoOtherPanic == ~(st.panic /\ st.pcls # "plan")
 \* transitions (prev -> st)
